@@ -1,9 +1,9 @@
 """C14 — no message from the network can crash or wedge a node (PARTIAL: see TRUSTED / the manifest text)."""
 import glob, json, os
-from .. import core
+from .. import core, httpw
 
 ID = "C14"
-MODULE = "DrandProofs.C14"
+MODULE = "DrandProofs.C14Http"   # imports DrandProofs.C14 (dispatch model, lock relation)
 THEOREMS = ["Drand.Daemon." + t for t in [
     "tie_nilDerefs", "tie_listeners", "tie_explicit_regions", "tie_echo_nonblocking", "c14_code_still_serves",
     "c14_no_self_deadlock", "c14_read_reentries", "c14_locks_released", "c14_peer_regions_panic_free",
@@ -12,7 +12,13 @@ THEOREMS = ["Drand.Daemon." + t for t in [
     "c14_total_peer", "c14_total_control_wire", "c14_panic_sites", "c14_panic_keeps_state", "c14_wire_panics_peer_only",
     "c14_phase_moves_legal", "c14_still_serves", "c14_still_serves_histories", "c14_still_serves_partial",
     "c14_still_serves_counterexample", "c14_wedge_only_by_overflow",
-    "c14_beacon_total", "c14_beacon_wire_no_panic", "c14_beacon_never_blocks", "c14_http_total"]]
+    "c14_beacon_total", "c14_beacon_wire_no_panic", "c14_beacon_never_blocks", "c14_http_total"]] + ["Drand.Http." + t for t in [
+    # the waiter / watch logic of the public HTTP handler (model Drand/Http/Waiters.lean), every finite event list
+    "inv_step", "inv_run", "c14_http_no_panic_no_block", "c14_http_send_safe", "c14_http_pending_open", "c14_http_closed_only_when_done",
+    "c14_http_lock_discipline", "c14_http_latest_reset", "wSends_spec", "releaseLock_spec", "c14_http_cancel_completes",
+    "c14_http_delivery_notifies_all", "c14_http_released_waiter_completes", "c14_http_watch_loop_alive", "c14_http_health_status",
+    "tie_waiter_channel", "tie_eval_regions", "tie_cancel_branch", "tie_notify_region", "tie_fail_region",
+    "tie_beacons_lock_table", "c14_http_beacons_guarded", "c14_http_beacons_guarded_partial", "c14_http_beacons_counterexample"]]
 TRUSTED = [
     "Lean 4 kernel; axioms per theorem under coverage.axioms",
     "go2lean lock-fact walker (syntactic: Lock/RLock/Unlock/defer per method, receiver-internal same-goroutine calls; dies on unbalanced shapes), nil-dereference extractor (direct field chains vs getters, earlier `== nil` return guards), listener facts (interceptor chains, registered services) — regenerated every run, tied by tie_* / used by the theorems",
@@ -20,6 +26,9 @@ TRUSTED = [
     "oracle labels of the model: 'this proposal/execute packet is the leader's valid signed one', 'this DKG bundle carries a valid participant signature' (set by construction in the generator, never from the implementation's answer)",
     "modelled, not verified: sync.Mutex/RWMutex semantics, Go channel semantics, grpc-go (delivery, go-grpc-middleware recovery turning a handler panic into codes.Internal), net/http per-connection recover, kyber, bbolt",
     "harness engine 'dispatch': real dkg.Process (real bolt dkg store, stub BeaconIdentifier, in-memory DKGClient), real beacon.Handler over a real trimmed bolt store, core.DrandDaemon/BeaconProcess assembled by export shims (the real constructors need a key store, config folder and ports), served by the production net.NewGRPCPrivateGateway on loopback",
+    "HTTP waiter / watch logic (handler/http getRand, watchWithTimeout, Watch, start): small-step model Drand/Http/Waiters.lean with every cut point an event; proved for every finite event list "
+    "(DrandProofs/C14Http.lean); go2lean facts tools/go2lean/httpw.go (lock regions, waiter channel capacity, lock table of DrandHandler.beacons); harness engine 'httpw' (real DrandHandler, scripted fake client, "
+    "concurrent requests with cancellable contexts, a gate channel that holds the watcher inside its notification loop, one child process per script so that a crash is an outcome)",
     "not exercised: the control listener as a network endpoint (its handlers are called in-process), a daemon started from disk with the repo's test scaffolding, TLS, metrics endpoints, concurrent request interleavings (requests are sequential)"]
 ASSUMPTIONS = ["single initial-epoch DKG world (three joiners, no remaining/leaving nodes); one beacon id ('default')",
                "requests are processed one at a time (no concurrent handlers); cross-type lock ordering is not analysed"]
@@ -543,13 +552,72 @@ def replay(ctx, res, path):
             res.add_violation(rep)
 
 
+def hangup_scripts(rng, tier):
+    """a remote party hanging up (RemoveCallback) or reconnecting (AddCallback of the same id) while a Put is parked in the
+    middle of its dispatch loop behind a stalled consumer: the store must not panic ("send on closed channel" would kill
+    the aggregator / sync goroutine, i.e. the process) and must go on storing afterwards"""
+    S = []
+    for k in range(3 if tier == "quick" else 20):
+        r = rng.fork(f"hangup{k}")
+        nb = r.range(4, 8)
+        ops = ["init", "add A gate"] + [f"add B{i} fast" for i in range(nb)]
+        ops = r.shuffle(ops[1:])
+        ops = ["init"] + ops + ["put"] * 102
+        who = r.shuffle([f"B{i}" for i in range(nb)])
+        ops += [(f"remove {w}" if r.chance(2, 3) else f"add {w} fast") for w in who]
+        ops += ["release A 400", "wait", "wait", "put", "put", "last"]
+        S.append(ops)
+    return S
+
+
+def explore_hangup(ctx, res, tier):
+    H = os.path.join(core.BUILD, "verifh")
+    n = bad = 0
+    for ops in hangup_scripts(ctx["rng"].fork("hangup"), tier):
+        rc, outs, err = core.run_lines(H, ["cbstore"], ops, timeout=300, env=dict(os.environ, VERIF_WATCHDOG_MS="300", GOMEMLIMIT="6GiB"))
+        n += len(ops)
+        why = None
+        if rc != 0 or len(outs) < len(ops):
+            why = f"the harness process died after op {len(outs)}: {err[-300:]}"
+        else:
+            for i, (o, a) in enumerate(zip(ops, outs)):
+                if "panic" in a:
+                    why = f"op {i} `{o}` answered `{a[:120]}`: a Put that was parked behind a stalled consumer panicked after another consumer hung up"
+                    break
+            if why is None and not (outs[-1].isdigit() and int(outs[-1]) >= 104):
+                why = f"after the hang-ups the store did not go on storing: last = {outs[-1]}, the two Puts answered {outs[-3]}, {outs[-2]}"
+        if why:
+            bad += 1
+            res.add_violation({"engine": "cbstore", "kind": "impl-violates", "ops": ops, "observed": outs[-12:], "oracle": why})
+    res.cov.setdefault("distribution", {})["hangup_during_parked_put"] = {"scripts_ops": n, "violations": bad}
+    res.cov["evaluations"] = res.cov.get("evaluations", 0) + n
+
+
 def explore(ctx, res):
     """when a proof / tie / build step broke (ctx['deep']) search with the quick budget first and escalate to the thorough
     one only if that found no failing input"""
     if ctx.get("replay"):
+        c = json.load(open(ctx["replay"]))
+        if c.get("engine") == "httpw":
+            s = httpw.Script(c["ops"], {"kind": "replay"})
+            httpw.run_impl([s], workers=1, timeout=300)
+            res.cov.update(evaluations=len(s.ops), rule="replay of " + ctx["replay"], samples=[{"ops": s.ops, "impl": s.impl}])
+            hit = httpw.oracle_c14(s)
+            if hit:
+                i, code, why, sig = hit
+                res.report(sig, {"engine": "httpw", "kind": "impl-violates", "ops": s.ops[: i + 1], "observed": s.impl[: i + 1], "oracle": why})
+            return
         return replay(ctx, res, ctx["replay"])
+    # the HTTP waiter / watch logic first (seconds)
+    if httpw.explore_http(ctx, res, ID) and ctx["deep"]:
+        return
+    hw = res.cov.get("http_waiters", {})
     tiers = ["quick", "thorough"] if ctx["deep"] and ctx["tier"] == "quick" else ["thorough" if ctx["deep"] else ctx["tier"]]
     for t in tiers:
         explore_tier(ctx, res, t)
+        explore_hangup(ctx, res, t)
+        res.cov["http_waiters"] = hw
+        for k in ("evaluations", "distinct_nontrivial", "traces_validated_against_impl"):
+            res.cov[k] = res.cov.get(k, 0) + hw.get(k, 0)
         if any(found for _, found in res.violations):
             return
